@@ -499,6 +499,15 @@ func parent(h *Harness, tier string) int {
 		os.WriteFile(path, b, 0o644)
 		fmt.Printf("VIOLATION property=%s replay=%s key=%q witness=%s :: %s\n", h.Prop, path, k, trunc(v.Witness, 200), trunc(v.Detail, 300))
 	}
+	if f := os.Getenv("VERIF_DUMP_KEYS"); f != "" {
+		var b strings.Builder
+		for _, k := range keys {
+			v := byKey[k]
+			_, isKnown := known[k]
+			fmt.Fprintf(&b, "%d\t%v\t%s\t%s\t%s\n", violKeyCount[k], isKnown, k, trunc(v.Witness, 150), trunc(v.Detail, 300))
+		}
+		os.WriteFile(f, []byte(b.String()), 0o644)
+	}
 	if unknown > 25 {
 		fmt.Printf("(%d further distinct violation keys not printed)\n", unknown-25)
 	}
